@@ -230,6 +230,25 @@ func c06Requests(w *mintops.W, honest []c06Req, pairs bool) []c06Req {
 			c06Req{Endpoint: "swap", Method: "POST", Path: "/v1/swap", Class: "semantic:duplicate-input",
 				Body: jsonStr(map[string]any{"inputs": proofsJSON(cashu.Proofs{p, p}), "outputs": msgsJSON(w.U.Outputs(act, world.Split(2*p.Amount)...))})},
 		)
+		// two outputs with the same B_ that differ in another field (struct-inequal, so a whole-struct duplicate check
+		// cannot see them; the signature table is unique on B_ alone)
+		if p.Amount >= 2 {
+			fee := w.FeeFor(cashu.Proofs{p}).Uint64()
+			if p.Amount-fee >= 2 {
+				o := w.U.Outputs(act, 1)[0]
+				half := msgsJSON([]world.Out{o, o})
+				half[1]["witness"] = "x"
+				out = append(out, c06Req{Endpoint: "swap", Method: "POST", Path: "/v1/swap", Class: "semantic:same-B_-different-witness",
+					Body: jsonStr(map[string]any{"inputs": proofsJSON(cashu.Proofs{p}), "outputs": half})})
+				o2 := w.U.Outputs(act, 1)[0]
+				two := msgsJSON([]world.Out{o2, o2})
+				if p.Amount-fee >= 3 {
+					two[1]["amount"] = 2
+					out = append(out, c06Req{Endpoint: "swap", Method: "POST", Path: "/v1/swap", Class: "semantic:same-B_-different-amount",
+						Body: jsonStr(map[string]any{"inputs": proofsJSON(cashu.Proofs{p}), "outputs": two})})
+				}
+			}
+		}
 		for _, k := range w.Keysets {
 			if !k.Active {
 				out = append(out, c06Req{Endpoint: "swap", Method: "POST", Path: "/v1/swap", Class: "semantic:inactive-keyset-outputs",
@@ -249,6 +268,13 @@ func c06Requests(w *mintops.W, honest []c06Req, pairs bool) []c06Req {
 			// paid: over-amount and invalid amount keep it refused
 			out = append(out, c06Req{Endpoint: "mint", Method: "POST", Path: "/v1/mint/bolt11", Class: "semantic:mint-over-amount",
 				Body: jsonStr(map[string]any{"quote": q.Q.Id, "outputs": msgsJSON(w.U.Outputs(act, world.Split(q.Q.Amount+1)...))})})
+			if q.Key == nil && q.Q.Amount >= 3 {
+				o := w.U.Outputs(act, 1)[0]
+				two := msgsJSON([]world.Out{o, o})
+				two[1]["amount"] = 2
+				out = append(out, c06Req{Endpoint: "mint", Method: "POST", Path: "/v1/mint/bolt11", Class: "semantic:same-B_-different-amount",
+					Body: jsonStr(map[string]any{"quote": q.Q.Id, "outputs": two})})
+			}
 			out = append(out, c06Req{Endpoint: "mint", Method: "POST", Path: "/v1/mint/bolt11", Class: "semantic:mint-amount-not-a-key",
 				Body: jsonStr(map[string]any{"quote": q.Q.Id, "outputs": msgsJSON(w.U.Outputs(act, 3))})})
 			if q.Key != nil {
